@@ -116,6 +116,35 @@ impl G {
         let l = self.bin_lit();
         format!("[{a}, {l}] __binary_concat__")
     }
+    /// Emitted only at the very start of a scenario, before any fallible step exists: the steps read the
+    /// flowing value of the step before them, and after a line that holds a fallible step that value is
+    /// typed maybe-nil (the known findings), which would make these steps fail for that other reason.
+    fn flow_provenance_steps(&mut self, rng: &mut Rng) -> Vec<Step> {
+        let s = |src: String| Step { src, alias: false, fails: false, tailcall: false, narrows: None, needs_narrowed: None, dispatch_def: None, dispatch_call: None };
+        let mut out = Vec::new();
+        // the same through a FIELD of the flowing value (`.0 =x`) and through a tuple built around it
+        // (`t = [~, 1]`): what the variable remembers about where its value came from must not be read
+        // against a later line's flowing value either
+            let mk = self.fresh("mkq");
+            let (a, b) = (rng.range(1, 90), rng.range(1, 90));
+            if rng.chance(1, 2) {
+                let x = self.fresh("fx");
+                out.push(s(format!("{mk} = #'int {{ | =0 => Fp[Fa[a: {a}]] | Fq[Fb[b: {b}]] }}")));
+                out.push(s(format!("0 {mk}")));
+                out.push(s(format!(".0 ={x}")));
+                out.push(s(format!("1 {mk}")));
+                out.push(Step { narrows: Some("~".to_string()), ..s(format!(".0 =Fb[b: 'int], {x} {{ | =Fa[a: n] => n | =Fb[b: n] => [n, 100] __integer_add__ }}")) });
+            } else {
+                let (t, sv) = (self.fresh("ft"), self.fresh("fs"));
+                out.push(s(format!("{mk} = #'int {{ | =0 => Fa[a: {a}] | Fb[b: {b}] }}")));
+                out.push(s(format!("0 {mk}")));
+                out.push(s(format!("{t} = [~, 1]")));
+                out.push(s(format!("1 {mk}")));
+                out.push(Step { narrows: Some("~".to_string()), ..s(format!("={sv}, {t}.0 =Fa[a: 'int], {sv} {{ | =Fa[a: n] => n | =Fb[b: n] => [n, 100] __integer_add__ }}")) });
+            }
+            self.last_int = true;
+            out
+    }
     fn step(&mut self, rng: &mut Rng) -> Vec<Step> {
         let s = |src: String| Step { src, alias: false, fails: false, tailcall: false, narrows: None, needs_narrowed: None, dispatch_def: None, dispatch_call: None };
         let mut out = Vec::new();
@@ -468,6 +497,12 @@ impl Property for C11 {
         let mut steps: Vec<Step> = vec![Step { src: super::c04::SPIN.to_string(), alias: false, fails: false, tailcall: false, narrows: None, needs_narrowed: None, dispatch_def: None, dispatch_call: None }, Step { src: WD.to_string(), alias: false, fails: false, tailcall: false, narrows: None, needs_narrowed: None, dispatch_def: None, dispatch_call: None }];
         let n = 4 + rng.usize(8);
         let mut h = crate::rng::Fnv::default();
+        if rng.chance(1, 10) {
+            for s in g.flow_provenance_steps(rng) {
+                h.str(&s.src.chars().filter(|c| !c.is_ascii_digit()).collect::<String>());
+                steps.push(s);
+            }
+        }
         while steps.len() < n + 1 {
             for s in g.step(rng) {
                 h.str(&s.src.chars().filter(|c| !c.is_ascii_digit()).collect::<String>());
